@@ -457,6 +457,17 @@ M("c05-silent-inline-bins", "C05", AP, "        end_bin = region[1] // self.COVE
   note="bin computed inline, other spelling of the constant")
 
 # ---------------------------------------------------------------- C07
+IQ = "isoquant.py"
+M("c07-revert-stale-markers", "C07", IQ, "    if not args.resume:\n        clean_progress_markers(args)\n    save_params(args)", "    save_params(args)",
+  rule="R8", note="revert of fix 3a9bd82: parameters of a new run saved while markers of a killed earlier run are still on disk")
+M("c07-markers-cleaned-after-params", "C07", IQ, "    if not args.resume:\n        clean_progress_markers(args)\n    save_params(args)",
+  "    save_params(args)\n    if not args.resume:\n        clean_progress_markers(args)", rule="R8",
+  note="invalidation after publication: a kill between the two leaves stale markers with the new .params")
+M("c07-cleaner-misses-processed", "C07", IQ, 'if marker.endswith(("_lock", "_collected", "_processed")):', 'if marker.endswith(("_lock", "_collected")):',
+  rule="R8", note="the clean-up does not cover the _processed markers")
+M("c07-silent-cleaner-unconditional-name", "C07", IQ, 'if marker.endswith(("_lock", "_collected", "_processed")):',
+  'if marker.endswith("_lock") or marker.endswith("_collected") or marker.endswith("_processed"):', expect="silent",
+  note="suffix test written as a disjunction")
 M("c07-revert-tmp-close", "C07", DSP, "    tmp_printer.close()\n\n    logger.info(\"Finished processing chromosome \" + chr_id)", "    logger.info(\"Finished processing chromosome \" + chr_id)",
   rule="R1", note="revert: temp-file printer open (terminator unwritten) when _collected is created")
 M("c07-revert-agg-close", "C07", DSP, "    aggregator.close()\n    tmp_gff_printer.close()", "    tmp_gff_printer.close()", rule="R1",
@@ -586,3 +597,89 @@ M("x1-silent-rename-flip", "C11", PVM, None, None, expect="silent", note="local 
 M("x1-silent-reorder", "C11", PVM, "        fake_terminal_exon_count = 0\n        terminal_exon_misaligned = 0\n\n        for i, event in enumerate(matching_events):\n            if event.event_type in [MatchEventSubtype.major_exon_elongation_left,",
   "        terminal_exon_misaligned = 0\n        fake_terminal_exon_count = 0\n\n        for i, event in enumerate(matching_events):\n            if event.event_type in [MatchEventSubtype.major_exon_elongation_left,", expect="silent",
   note="independent statements reordered on one side")
+
+# ---------------------------------------------------------------- rules added after the second seeding round
+GMC = "src/graph_based_model_construction.py"
+M("c04-silent-type-helper", "C04", GMC, None, None, expect="silent", note="nic/nnic decision extracted into a helper that still tests known_introns",
+  edits=[(GMC, "                    if all(intron in self.known_introns for intron in intron_path):\n                        transcript_type = TranscriptModelType.novel_in_catalog\n                        id_suffix = TranscriptNaming.nic_transcript_suffix\n                    else:\n                        transcript_type = TranscriptModelType.novel_not_in_catalog\n                        id_suffix = TranscriptNaming.nnic_transcript_suffix\n",
+          "                    transcript_type, id_suffix = self.novel_transcript_type(intron_path)\n"),
+         (GMC, "    def process(self, read_assignment_storage):",
+          "    def novel_transcript_type(self, intron_path):\n        if all(intron in self.known_introns for intron in intron_path):\n            return TranscriptModelType.novel_in_catalog, TranscriptNaming.nic_transcript_suffix\n        return TranscriptModelType.novel_not_in_catalog, TranscriptNaming.nnic_transcript_suffix\n\n    def process(self, read_assignment_storage):")])
+AI = "src/alignment_info.py"
+M("c16-silent-trim-helpers", "C16", AI, None, None, expect="silent", note="trimming blocks extracted into helpers that read self.read_exons afresh",
+  edits=[(AI, "            self.read_exons = self.read_exons[:-polya_exon_count]\n            self.read_blocks = self.read_blocks[:-polya_exon_count]\n            self.cigar_blocks = self.cigar_blocks[:-polya_exon_count]\n",
+          "            self.cut_right(polya_exon_count)\n"),
+         (AI, "            self.read_exons = self.read_exons[polyt_exon_count:]\n            self.read_blocks = self.read_blocks[polyt_exon_count:]\n            self.cigar_blocks = self.cigar_blocks[polyt_exon_count:]\n",
+          "            self.cut_left(polyt_exon_count)\n"),
+         (AI, "    def add_polya_info(self, polya_finder, polya_fixer):",
+          "    def cut_right(self, k):\n        self.read_exons = self.read_exons[:-k]\n        self.read_blocks = self.read_blocks[:-k]\n        self.cigar_blocks = self.cigar_blocks[:-k]\n\n    def cut_left(self, k):\n        self.read_exons = self.read_exons[k:]\n        self.read_blocks = self.read_blocks[k:]\n        self.cigar_blocks = self.cigar_blocks[k:]\n\n    def add_polya_info(self, polya_finder, polya_fixer):")])
+M("c16-cut-helper-misses-a-list", "C16", AI, None, None, rule="Q2", note="extracted helper forgets cigar_blocks",
+  edits=[(AI, "            self.read_exons = self.read_exons[polyt_exon_count:]\n            self.read_blocks = self.read_blocks[polyt_exon_count:]\n            self.cigar_blocks = self.cigar_blocks[polyt_exon_count:]\n",
+          "            self.cut_left(polyt_exon_count)\n"),
+         (AI, "    def add_polya_info(self, polya_finder, polya_fixer):",
+          "    def cut_left(self, k):\n        self.read_exons = self.read_exons[k:]\n        self.read_blocks = self.read_blocks[k:]\n\n    def add_polya_info(self, polya_finder, polya_fixer):")])
+M("c16-silent-clip-or", "C16", "src/polya_finder.py", "        elif cigar_tuples[0][0] in [4, 5]:", "        elif cigar_tuples[0][0] == 4 or cigar_tuples[0][0] == 5:",
+  expect="silent", note="membership written as a disjunction")
+IDS = "src/input_data_storage.py"
+M("c10-silent-yaml-ifexp", "C10", IDS, "                if 'illumina bam' in sample.keys():\n                    illumina_bam.append([normalize_path(yaml_file_path, ib) for ib in sample['illumina bam']])\n                else:\n                    illumina_bam.append(None)",
+  "                short_bams = [normalize_path(yaml_file_path, ib) for ib in sample['illumina bam']] if 'illumina bam' in sample.keys() else None\n                illumina_bam.append(short_bams)",
+  expect="silent", note="per-experiment local assigned unconditionally in the iteration")
+M("c03-silent-drop-first-registry-test", "C03", GMC, "            if refrenence_isoform_id in GraphBasedModelConstructor.detected_known_isoforms:\n                continue\n\n            events =",
+  "            events =", expect="silent", note="only the early registry test removed: the test at the append still protects uniqueness")
+M("c03-silent-drop-second-registry-test", "C03", GMC, "            elif isoform_id not in GraphBasedModelConstructor.detected_known_isoforms:\n                new_model = self.transcript_from_reference(isoform_id)\n                self.transcript_model_storage.append(new_model)",
+  "            else:\n                new_model = self.transcript_from_reference(isoform_id)\n                self.transcript_model_storage.append(new_model)",
+  expect="silent", note="only the test at the append removed: the table is filled only for unregistered ids")
+M("c03-nonfl-no-registry-test", "C03", GMC, "            if isoform_id in GraphBasedModelConstructor.detected_known_isoforms:\n                continue\n            count = len(spliced_isoform_reads[isoform_id])",
+  "            count = len(spliced_isoform_reads[isoform_id])", expect="silent",
+  note="non-FL registry test removed: redundant, the table is filled (after the FL pass) only for unregistered ids")
+M("c03-nonfl-no-registry-test-at-all", "C03", GMC, None, None, rule="G5", note="neither the fill nor the non-FL loop tests the registry",
+  edits=[(GMC, "            if isoform_id in GraphBasedModelConstructor.detected_known_isoforms:\n                continue\n            count = len(spliced_isoform_reads[isoform_id])",
+          "            count = len(spliced_isoform_reads[isoform_id])"),
+         (GMC, "            if refrenence_isoform_id in GraphBasedModelConstructor.detected_known_isoforms:\n                continue\n\n            events =", "            events =")])
+M("c03-registry-not-updated", "C03", GMC, "                self.transcript_model_storage.append(new_model)\n                GraphBasedModelConstructor.detected_known_isoforms.add(isoform_id)\n                for read_assignment in mono_exon_isoform_reads[isoform_id]:",
+  "                self.transcript_model_storage.append(new_model)\n                for read_assignment in mono_exon_isoform_reads[isoform_id]:", rule="G5",
+  note="mono-exon reference model not registered")
+M("c05-silent-correct-hash", "C05", "src/isoform_assignment.py", "    def __getstate__(self):\n        return (self.assignment_id,",
+  "    def __hash__(self):\n        return hash((self.read_id, self.chr_id, self.start, self.end))\n\n    def __getstate__(self):\n        return (self.assignment_id,",
+  expect="silent", note="a __hash__ over a subset of the __eq__ fields")
+M("c05-silent-strategy-via-local", "C05", "isoquant.py", '    args.multimap_strategy = "take_best"\n', '    strategy_name = "take_best"\n    args.multimap_strategy = strategy_name\n',
+  expect="silent", note="strategy name passes through a local")
+M("c05-strategy-merge", "C05", "isoquant.py", '    args.multimap_strategy = "take_best"\n', '    args.multimap_strategy = "ignore_multimapper"\n', rule="D9",
+  note="strategy without de-duplication selected")
+DSPF = "src/dataset_processor.py"
+M("c02-silent-strategy-keyword", "C02", DSPF, "            self.gene_counter = create_gene_counter(sample.out_gene_counts_tsv,\n                                                    self.args.gene_quantification,",
+  "            self.gene_counter = create_gene_counter(sample.out_gene_counts_tsv,\n                                                    strategy=self.args.gene_quantification,",
+  expect="silent", note="strategy passed by keyword")
+M("c02-gene-counter-transcript-strategy", "C02", DSPF, "            self.gene_counter = create_gene_counter(sample.out_gene_counts_tsv,\n                                                    self.args.gene_quantification,",
+  "            self.gene_counter = create_gene_counter(sample.out_gene_counts_tsv,\n                                                    self.args.transcript_quantification,",
+  rule="W5", note="gene table weighted with the transcript option")
+M("c02-silent-flag-eq-chain", "C02", "src/long_read_counter.py", "        return self in [CountingStrategy.unique_inconsistent, CountingStrategy.all]",
+  "        return self == CountingStrategy.unique_inconsistent or self == CountingStrategy.all", expect="silent",
+  note="flag method written with == / or instead of a membership list")
+LRAF = "src/long_read_assigner.py"
+M("c01-silent-tolerance-alias", "C01", LRAF, "            if contains_approx(self.gene_info.transcript_region(isoform_id), read_region,\n                               self.params.min_abs_exon_overlap):",
+  "            slack = self.params.min_abs_exon_overlap\n            if contains_approx(self.gene_info.transcript_region(isoform_id), read_region, slack):",
+  expect="silent", note="tolerance read through a local alias, same role")
+M("c01-tolerance-delta-as-containment", "C01", LRAF, "            if contains_approx(self.gene_info.transcript_region(isoform_id), read_region,\n                               self.params.min_abs_exon_overlap):",
+  "            if contains_approx(self.gene_info.transcript_region(isoform_id), read_region,\n                               self.params.minor_exon_extension):",
+  rule="E6", note="another tolerance used as containment slack")
+M("c18-silent-strand-keywords", "C18", GMC, "self.strand_detector.get_strand(intron_path, has_polya, has_polyt)", "self.strand_detector.get_strand(intron_path, has_polyt=has_polyt, has_polya=has_polya)",
+  expect="silent", note="arguments passed by keyword in another order")
+TPF = "src/transcript_printer.py"
+M("c18-silent-window-local", "C18", TPF, "    gene_info.set_reference_sequence(1, len(chr_record), chr_record)", "    chr_len = len(chr_record)\n    gene_info.set_reference_sequence(1, chr_len, chr_record)",
+  expect="silent", note="chromosome length through a local")
+M("c17-silent-key-alias", "C17", TPF, "                    exon_str_id = self.exon_id_storage.get_id(model.chr_id, e, model.strand)",
+  "                    exon_strand = model.strand\n                    exon_str_id = self.exon_id_storage.get_id(model.chr_id, e, exon_strand)",
+  expect="silent", note="strand of the same model through a local")
+M("c13-silent-valid-reordered", "C13", "src/long_read_counter.py", "        return assignment is not None and \\\n               hasattr(assignment, 'exon_gene_profile') and assignment.exon_gene_profile is not None  and \\\n               hasattr(assignment, 'intron_gene_profile') and assignment.intron_gene_profile is not None and \\\n               hasattr(assignment, 'gene_info') and assignment.gene_info is not None",
+  "        if assignment is None or getattr(assignment, 'gene_info', None) is None:\n            return False\n        return getattr(assignment, 'exon_gene_profile', None) is not None and getattr(assignment, 'intron_gene_profile', None) is not None",
+  expect="silent", note="validity predicate rewritten with getattr(...) is not None")
+M("c09-silent-linear-line-local", "C09", "src/long_read_counter.py", "                if self.output_grouped_linear:\n                    linear_output_file.write(\"%s\\t%s\\t%.2f\\n\" % (feature_id, self.ordered_groups[group_id], count))",
+  "                if self.output_grouped_linear:\n                    line = \"%s\\t%s\\t%.2f\\n\" % (feature_id, self.ordered_groups[group_id], count)\n                    linear_output_file.write(line)",
+  expect="silent", note="formatted line through a local used only inside the flag block")
+M("c20-silent-bed-local", "C20", "src/read_mapper.py", "                db2bed(args.genedb, bed_fname)\n                store_bed(bed_fname, args)",
+  "                db2bed(args.genedb, bed_fname)\n                logger.info('Converted annotation to ' + bed_fname)\n                store_bed(bed_fname, args)",
+  expect="silent", note="an unrelated statement between conversion and registration")
+M("c11-silent-sentinel-guard-nested", "C11", "src/polya_verification.py", "    if exon_count == 0 or exon_count == len(read_exons) or polya_pos == -1:\n        return polya_pos\n\n    dist_to_polya = 0\n    for i in range(exon_count):\n        exon = read_exons[-i-1]\n        if exon[0] > polya_pos:",
+  "    if polya_pos == -1:\n        return polya_pos\n    if exon_count == 0 or exon_count == len(read_exons):\n        return polya_pos\n\n    dist_to_polya = 0\n    for i in range(exon_count):\n        exon = read_exons[-i-1]\n        if exon[0] > polya_pos:",
+  expect="silent", note="sentinel exit split off into its own if (one side only)")
